@@ -38,6 +38,11 @@ def unit_verus_pipe(tier, prop):
     return verus_pipe.run(tier, prop)
 
 
+def unit_kani_elf(tier, prop):
+    from .units import kani_elf
+    return kani_elf.run(tier, prop)
+
+
 def unit_scan_c20(tier, prop):
     from .units import scan_c20
     return scan_c20.run(tier, prop)
@@ -48,6 +53,7 @@ UNITS = {
     "kani_l0m": unit_kani_l0m,
     "kani_stk": unit_kani_stk,
     "verus_pipe": unit_verus_pipe,
+    "kani_elf": unit_kani_elf,
     "kani_l3": unit_kani_l3,
     "kani_l0": unit_kani_l0,
     "verus_memory": lambda tier, prop: unit_verus_memory(tier),
@@ -69,6 +75,8 @@ PROP_UNITS = {
     "C12": ["kani_l3"],
     "C13": ["kani_l3", "verus_memory"],
     "C14": ["verus_pipe"],
+    "C15": ["kani_elf"],
+    "C16": ["kani_elf"],
     "C17": ["kani_stk", "verus_memory"],
     "C18": ["kani_l3", "kani_l2"],
     "C19": ["kani_l2", "verus_memory", "kani_l0", "kani_l3", "verus_pipe"],
@@ -137,7 +145,7 @@ def run(prop, tier, seed, t0):
             return dict(replay_note="replay skipped: at most three violations per run are replayed (each costs a solver run)")
         if o.get("unit") == "kani_l2" and o["id"].startswith("l2|"):
             return replay.replay_l2_obligation(o, tier)
-        if o.get("unit") in ("kani_l0", "kani_l0m", "kani_l3", "kani_stk") and o.get("harness"):
+        if o.get("unit") in ("kani_l0", "kani_l0m", "kani_l3", "kani_stk", "kani_elf") and o.get("harness"):
             return replay.replay_generic_obligation(o)
         return {}
     cat = CLAIMS.get(prop, {}).get("category", "proof")
@@ -212,6 +220,12 @@ CLAIMS = {
 CLAIMS["C14"] = _c("verus", "proof", "10.10", "Verus: real bodies of the pipe(), read() and write() handler closures under contract (unbounded sizes) + inductive FIFO lemma over all call histories",
                    "Each handler closure of register_pipe (real text, cut out on every run) satisfies: calls that are not its syscall or not on a pipe end return Unhandled and change nothing; read returns min(count, buffered) bytes - the head of the buffer, in order - stores exactly them, sets RAX, and removes exactly them; write appends exactly the count guest bytes to the buffer of its pipe and to no other; pipe() creates an empty pipe on two unused descriptors and touches no existing pipe; the three maps stay a bijection of write and read ends with one buffer per read end. A lemma over these contracts shows for every finite history of calls on any descriptors: bytes written == bytes read ++ bytes buffered, per pipe. The hook chain's Handled/Unhandled protocol is C12.",
                    "contracts of the register / memory accessors and of the std Entry chain are trusted here (proved / listed in the other units); registration glue not covered")
+CLAIMS["C15"] = _c("kani", "other", "10.11", "Kani: real body of the segment loop of from_binary (one iteration, arbitrary program header) + elf_flags_to_prot against the contracts of segment_data and the memory layer",
+                   "Partial: for one arbitrary program header the real loader code maps a well-formed PT_LOAD segment (file range inside the file, filesz <= memsz, its page-rounded extent free) successfully with the file bytes at p_vaddr, zeros up to at least p_memsz and the permissions given by p_flags (all 2^32 flag words), touches no existing area, and maps nothing for other segment types. NOT covered: the elf crate's parser and iterators, entry point -> RIP, symbol import (the code of from_binary outside the segment loop). Bounded in the file range of the segment; level other.",
+                   "elf crate trusted; entry point and symbol table not covered; file range of the segment concrete per harness (0, 3 or 4 bytes)")
+CLAIMS["C16"] = _c("kani", "other", "10.11", "Kani: panic-freedom and error behaviour of the real segment-loop body of from_binary for an arbitrary program header",
+                   "Partial: whatever the fields of a program header are (types, flags, addresses, sizes up to 2^64, file ranges outside the file or overflowing), the loader's own code neither panics nor reads outside the file; ranges outside the file and unsupported segment types are errors; the only allocation it requests is p_memsz rounded up to a page. NOT covered: the elf crate's parser (which decides 'all byte strings'), termination of its iterators, and host allocation failure - a huge p_memsz still reaches vec![0; n] in mem_init_zero_named (listed as an open finding in DESIGN.md 10.11, outside both verifiers' models).",
+                   "elf crate trusted; allocation failure outside the model; one program header per harness")
 CLAIMS["C17"] = _c("kani+verus", "other", "5/C17, 10.9", "Kani: real init_stack_program_start / init_stack text against the contracts of the allocators and stores + Verus: init_stack and the 'anywhere' allocators",
                    "The real text of init_stack_program_start(_impl) and init_stack runs against the proved contracts of mem_init_anywhere / mem_init_zero_named / mem_write_64 / reg_write_64: it fails only if an allocator fails, RSP is 16-byte aligned, popping from RSP yields argc, argv pointers in order, NULL, envp pointers in order, NULL, every pointer refers to a NUL-terminated copy in a read+write string area, nothing outside the fresh stack area is stored to, the frame lies inside the stack area and the requested size remains below RSP up to 32 bytes. Bounded in list and string lengths (never counted as proof); stack size, addresses, image layout and string placement symbolic. Verus proves init_stack and the allocators unbounded.",
                    "argc + envc <= 3 with concrete list lengths per harness, strings 0..2 bytes, stack size <= 2^48 (empty lists) / <= 4095 (with strings), placement search <= 4 candidates")
@@ -220,6 +234,4 @@ CLAIMS["C20"] = _c("scan", "other", "5/C20", "corollary of the functional postco
                    "syntactic scan; format!/Display of std and iced trusted to be deterministic; cross-process claim assumes deterministic HashMap lookups")
 
 NOT_APPLICABLE = {
-    "C15": "not claimed yet: the loader iterates over types of the external `elf` crate whose parser cannot be brought under either verifier within the session; see DESIGN.md 10.8",
-    "C16": "not claimed: 'all byte strings' is decided by the `elf` crate's parser (a trusted dependency outside the contract boundary); the loader's own arithmetic is covered only where the memory contracts apply (DESIGN.md 10.8)",
 }
